@@ -24,7 +24,7 @@ ASSUME = ["what numpy.savetxt, matplotlib and pandas do with those arguments is 
 
 
 def run(prog, rep):
-    rep.explanation = EXPL
+    rep.explanation = EXPL + ' C20.read also follows a parsing helper (it gets the path, its frame is returned) and refuses a memoised loader.'
     rep.assumptions = ASSUME
     rep.part(save, prog, rep)
     rep.part(contour, prog, rep)
